@@ -478,8 +478,10 @@ func CompileRegexp(re *syntax.Regexp, config Config) (*Engine, error) {
 		})
 		literals = extractor.ExtractPrefixes(re)
 
-		// Build prefilter from prefix literals
-		if literals != nil && !literals.IsEmpty() {
+		// Build prefilter from prefix literals.
+		// A partial-coverage sequence lacks the literals of some alternatives: every use of a
+		// prefilter built from it (candidate loop, DFA/PikeVM skip-ahead) would step over their matches.
+		if literals != nil && !literals.IsEmpty() && !literals.IsPartialCoverage() {
 			builder := prefilter.NewBuilder(literals, nil)
 			pf = builder.Build()
 		}
